@@ -14,7 +14,12 @@ structure RMsg where
   text : String
   lc : Nat := 0            -- lifecycle (for the calculated time of time lookups); filled by the driver
   lcStart : Nat := 0
+  ctrl : Bool := false     -- a control request: its time stamp is from the logger's clock
 deriving Repr, DecidableEq
+
+/-- the time of a message for the time sort and the time lookup: the reception time for a control request, otherwise
+    lifecycle start + time stamp, but not later than the reception time -/
+def RMsg.time (m : RMsg) : Nat := if m.ctrl then m.recv else min (m.lcStart + m.tsDms * 100) m.recv
 
 inductive Crit where
   | ecu (d : Nat) | apid (s : String) | ctid (s : String) | text (s : String)
